@@ -45,6 +45,13 @@ def run(ctx):
             recs = ctx.read_ndjson(of)
             ctx.samples = [dict(input="".join(x["inp"]), tokens=[[t["tok"], t["line"], t["char"], t["s"], t["e"]] for t in x["obs"]["toks"]])
                            for x in recs[100:20000:4500]]
+    def corrupt(r):
+        t = r["obs"].get("toks") or []
+        if len(t) >= 2 and t[0]["tok"] not in ("STRING", "BADSTRING", "BADESCAPE", "EOF"):
+            t[0]["char"] += 1
+            return True
+        return False
+    vp.binding_selftest(ctx, "Judge_c05", "Judge_c05.cfg", ctx.path("obs_SigmaOps%d.ndjson" % (4 if ctx.quick else 4)), corrupt)
     # seeded random multi-line texts (pass V on executions the generator did not enumerate)
     nr, lo, hi = (600, 40, 160) if ctx.quick else (6000, 50, 400)
     of = ctx.path("obs_rand.ndjson")
